@@ -13,7 +13,9 @@ def run(tier, replay=None):
         BC.run_positive(c, cases, docs)
     # PhantomData erasure by the built-in impls (tuples, Option/Result/Cow/... members)
     cases = T.corpus(c, thorough, False)
-    tr = T.observe(c, cases, 70, 0, limit=None if thorough else 8)
+    if not thorough:     # every expression that mentions a marker type; thorough: the whole corpus
+        cases = [x for x in cases if "PhantomData" in __import__("json").dumps(x["e"])]
+    tr = T.observe(c, cases, 70, 0)
     T.validate(c, "C17", tr)
     # PhantomData erasure by the derive (members of structs and variants, also behind Box/&)
     from checks import derivecommon as DC
